@@ -471,6 +471,60 @@ theorem takeThrough_index (l : Tagged σ) (j : Nat) (hj : j < l.length) (hd : (s
       simp only [List.getElem_cons_succ, takeThrough, hx, if_false, List.take_succ_cons]
       rw [ih j hj' hd']
 
+omit [DecidableEq σ] in
+theorem sigs_nodup_sublist {l l' : Tagged σ} (h : l'.Sublist l) (hd : (sigs l).Nodup) : (sigs l').Nodup := by
+  unfold sigs List.Nodup at *
+  exact List.Pairwise.sublist (h.map _) hd
+
+/-- index form of the slice (signatures distinct): `before = l[i]`, `until = l[j]` with `i < j` gives
+    `l[i+1 .. j]`, cut to `limit` -/
+theorem specL_index (l : Tagged σ) (limit : Int) (i j : Nat) (hij : i < j) (hj : j < l.length)
+    (hd : (sigs l).Nodup) :
+    specL l limit (some (l[i]'(by omega)).2.sig) (some (l[j]).2.sig)
+      = ((l.drop (i + 1)).take (j - i)).take limit.toNat := by
+  unfold specL
+  rw [dropAfter_index l i (by omega) hd]
+  have hlen : j - i - 1 < (l.drop (i + 1)).length := by simp; omega
+  have hget : (l.drop (i + 1))[j - i - 1] = l[j] := by
+    rw [List.getElem_drop]
+    congr 1; omega
+  have := takeThrough_index (l.drop (i + 1)) (j - i - 1) hlen (sigs_nodup_sublist (List.drop_sublist _ _) hd)
+  rw [hget] at this
+  rw [this]
+  congr 2; omega
+
+/-- `until` at or before `before` in the history is never met: only `before` and `limit` cut -/
+theorem specL_index_until_not_after (l : Tagged σ) (limit : Int) (i j : Nat) (hji : j ≤ i) (hi : i < l.length)
+    (hd : (sigs l).Nodup) :
+    specL l limit (some (l[i]).2.sig) (some (l[j]'(by omega)).2.sig) = (l.drop (i + 1)).take limit.toNat := by
+  unfold specL
+  rw [dropAfter_index l i hi hd]
+  rw [takeThrough_absent]
+  intro x hx heq
+  -- x = l[k] with k > i, same signature as l[j], j ≤ i: contradicts distinctness
+  obtain ⟨k, hk, rfl⟩ := List.getElem_of_mem hx
+  rw [List.getElem_drop] at heq
+  have hk' : i + 1 + k < l.length := by simp at hk; omega
+  have hp : (sigs l).Pairwise (· ≠ ·) := hd
+  have := List.pairwise_iff_getElem.mp hp j (i + 1 + k) (by simp [sigs]; omega) (by simp [sigs]; omega) (by omega)
+  simp only [sigs, List.getElem_map] at this
+  exact this heq.symm
+
+theorem allEpochs_skip (limit : Nat) (before untl : Option σ) (hs1 hs2 : Hist σ) (e : Nat) (s : S σ) :
+    allEpochs limit before untl (hs1 ++ (e, Lookup.notFound) :: hs2) s = allEpochs limit before untl (hs1 ++ hs2) s := by
+  induction hs1 generalizing s with
+  | nil => simp [allEpochs]
+  | cons h hs1 ih =>
+    obtain ⟨e', lk⟩ := h
+    cases lk with
+    | notFound => simp only [List.cons_append, allEpochs]; exact ih s
+    | failed => simp only [List.cons_append, allEpochs]
+    | found recs =>
+      simp only [List.cons_append, allEpochs]
+      split
+      · rfl
+      · exact ih _
+
 end Sig
 
 section Slot
@@ -772,6 +826,161 @@ theorem allEpochsSlot_sim (limit before untl : Nat) (hs : Hist σ) (s : S σ) (L
           · rw [this.1]; exact epochLoopSlot_sim _ _ _ _ _ _ _ hst hd
           · rw [this.2, epochLoopSlot_failed]
 
+theorem allEpochsSlot_skip (fixed : Bool) (limit before untl : Nat) (hs1 hs2 : Hist σ) (e : Nat) (s : S σ) :
+    allEpochsSlot fixed limit before untl (hs1 ++ (e, Lookup.notFound) :: hs2) s
+      = allEpochsSlot fixed limit before untl (hs1 ++ hs2) s := by
+  induction hs1 generalizing s with
+  | nil =>
+    simp only [List.nil_append]
+    conv => lhs; unfold allEpochsSlot
+    split <;> rfl
+  | cons h hs1 ih =>
+    obtain ⟨e', lk⟩ := h
+    simp only [List.cons_append]
+    conv => lhs; unfold allEpochsSlot
+    conv => rhs; unfold allEpochsSlot
+    split
+    · exact ih s
+    · cases lk with
+      | notFound => exact ih s
+      | failed => rfl
+      | found recs =>
+        simp only
+        split
+        · rfl
+        · exact ih _
+
+theorem visible_eq_flatten {α : Type} (recs : List (List α)) (h : ∀ r ∈ recs, r ≠ []) :
+    visible recs = recs.flatten := by
+  induction recs with
+  | nil => rfl
+  | cons r rs ih =>
+    have hr : r.isEmpty = false := by
+      have := h r List.mem_cons_self
+      cases r with
+      | nil => exact absurd rfl this
+      | cons _ _ => rfl
+    simp only [visible, hr, List.flatten_cons]
+    rw [ih (fun r' hr' => h r' (List.mem_cons_of_mem _ hr'))]
+    rfl
+
 end Slot
+
+/-! ## the JSON-RPC handler: from the result map to the response array -/
+
+section Handler
+variable {σ : Type}
+
+/-- `foundTransactions[e]`: the Go map is the grouping of the append sequence by epoch -/
+def group (out : Tagged σ) (e : Nat) : List (Tx σ) := (out.filter fun x => x.1 == e).map fun x => x.2
+
+/-- the keys of the Go map (epochs with at least one appended transaction) -/
+def keys (out : Tagged σ) : List Nat := (out.map fun x => x.1).eraseDups
+
+/-- pinned handler: `for ei := range foundTransactions { … response[numBefore+i] = … }` with the map keys
+    visited in `order` (Go leaves the order unspecified and randomises it) -/
+def responsePinned (order : List Nat) (out : Tagged σ) : List σ :=
+  order.flatMap fun e => (group out e).map fun t => t.sig
+
+/-- repaired handler (`/verif/fixes/C07-1.patch`): the epoch numbers in the order in which the readers were
+    queried (`getGsfaReadersInEpochDescendingOrder`) -/
+def responseFixed (epochs : List Nat) (out : Tagged σ) : List σ :=
+  epochs.flatMap fun e => (group out e).map fun t => t.sig
+
+/-- `parseGetSignaturesForAddressParams`: `if out.Limit <= 0 || out.Limit > 1000 { out.Limit = 1000 }` -/
+def normLimit (l : Int) : Int := if l ≤ 0 ∨ l > 1000 then 1000 else l
+
+/-- entries grouped epoch by epoch in the order `es` -/
+def Blocked : List Nat → Tagged σ → Prop
+  | [], l => l = []
+  | e :: es, l => ∃ l1 l2, l = l1 ++ l2 ∧ (∀ x ∈ l1, x.1 = e) ∧ (∀ x ∈ l2, x.1 ≠ e) ∧ Blocked es l2
+
+theorem blocked_sublist (es : List Nat) (l l' : Tagged σ) (hb : Blocked es l) (hs : l'.Sublist l) :
+    Blocked es l' := by
+  induction es generalizing l l' with
+  | nil =>
+    simp only [Blocked] at hb ⊢
+    subst hb
+    exact List.eq_nil_of_sublist_nil hs
+  | cons e es ih =>
+    obtain ⟨l1, l2, rfl, h1, h2, h3⟩ := hb
+    obtain ⟨a, b, rfl, ha, hb'⟩ := List.sublist_append_iff.mp hs
+    exact ⟨a, b, rfl, fun x hx => h1 x (ha.subset hx), fun x hx => h2 x (hb'.subset hx), ih l2 b h3 hb'⟩
+
+theorem mem_flatten_epoch (hs : Hist σ) (x : Nat × Tx σ) (hx : x ∈ flatten hs) : x.1 ∈ hs.map fun h => h.1 := by
+  simp only [flatten, List.mem_flatMap, List.mem_map] at hx ⊢
+  obtain ⟨h, hh, t, _, rfl⟩ := hx
+  exact ⟨h, hh, rfl⟩
+
+theorem blocked_flatten (hs : Hist σ) (hn : (hs.map fun h => h.1).Nodup) :
+    Blocked (hs.map fun h => h.1) (flatten hs) := by
+  induction hs with
+  | nil => simp [Blocked, flatten]
+  | cons h hs ih =>
+    simp only [List.map_cons, List.nodup_cons] at hn
+    refine ⟨(entries h.2).map (fun t => (h.1, t)), flatten hs, by simp [flatten], ?_, ?_, ih hn.2⟩
+    · intro x hx
+      obtain ⟨t, _, rfl⟩ := List.mem_map.mp hx
+      rfl
+    · intro x hx heq
+      have hm := mem_flatten_epoch hs x hx
+      rw [heq] at hm
+      exact hn.1 hm
+
+theorem regroup_skip (e : Nat) (es : List Nat) (l1 l2 : Tagged σ) (h1 : ∀ x ∈ l1, x.1 = e) (he : e ∉ es) :
+    es.flatMap (fun e' => (l1 ++ l2).filter fun x => x.1 == e') = es.flatMap (fun e' => l2.filter fun x => x.1 == e') := by
+  induction es with
+  | nil => rfl
+  | cons e' es ih =>
+    have hne : e ≠ e' := fun h => he (h ▸ List.mem_cons_self)
+    have : l1.filter (fun x => x.1 == e') = [] := by
+      rw [List.filter_eq_nil_iff]
+      intro x hx
+      have := h1 x hx
+      simp [this, hne]
+    have ih' := ih (fun h => he (List.mem_cons_of_mem _ h))
+    simp only [List.filter_append] at ih'
+    simp only [List.flatMap_cons, List.filter_append, this, List.nil_append]
+    rw [ih']
+
+theorem blocked_regroup (es : List Nat) (l : Tagged σ) (hn : es.Nodup) (hb : Blocked es l) :
+    es.flatMap (fun e => l.filter fun x => x.1 == e) = l := by
+  induction es generalizing l with
+  | nil => simp only [Blocked] at hb; subst hb; rfl
+  | cons e es ih =>
+    obtain ⟨l1, l2, rfl, h1, h2, h3⟩ := hb
+    simp only [List.nodup_cons] at hn
+    have f1 : l1.filter (fun x => x.1 == e) = l1 := by
+      rw [List.filter_eq_self]
+      intro x hx; simp [h1 x hx]
+    have f2 : l2.filter (fun x => x.1 == e) = [] := by
+      rw [List.filter_eq_nil_iff]
+      intro x hx; simp [h2 x hx]
+    simp only [List.flatMap_cons, List.filter_append, f1, f2, List.append_nil]
+    have := regroup_skip e es l1 l2 h1 hn.1
+    simp only [List.filter_append] at this
+    rw [this, ih l2 hn.2 h3]
+
+theorem responseFixed_eq (es : List Nat) (out : Tagged σ) :
+    responseFixed es out = (es.flatMap fun e => out.filter fun x => x.1 == e).map fun x => x.2.sig := by
+  induction es with
+  | nil => rfl
+  | cons e es ih =>
+    simp only [responseFixed, group, List.flatMap_cons, List.map_append, List.map_map] at ih ⊢
+    rw [ih]
+    rfl
+
+end Handler
+
+section HandlerSig
+variable {σ : Type} [DecidableEq σ]
+
+/-- the repaired `handleGetSignaturesForAddress`, signatures only: the `result` array of the response -/
+def handler (hs : Hist σ) (limit : Int) (before untl : Option σ) : Except String (List σ) :=
+  match iterBeforeUntil hs (normLimit limit) before untl with
+  | .ok out => .ok (responseFixed (hs.map fun h => h.1) out)
+  | .error e => .error e
+
+end HandlerSig
 
 end Paging
